@@ -68,7 +68,9 @@ def check_resume(prop: str, res: Result, fi: FuncInfo, seq_txt: str, want_mark: 
         # an unmodelled shape is not evidence of a violation: fail closed as analysis error, never as a pass
         res.errors.append(f"{fi.where} {fi.qualname}: resume scan cannot be modelled ({e}); the rule cannot decide it")
         return None
-    exact = want_mark == "tag"
+    # conversion must not convert twice; a reading must not be computed twice either: the sweep's skip test only sees top-level
+    # readings, so a helper series (stored in sub_indicators) that is re-entered is overwritten, with whatever history is left after trimming
+    exact = True
     n_live = 0
     for c in sa.cases:
         facts = tuple(f for f in c.facts if f is not True)
@@ -85,7 +87,7 @@ def check_resume(prop: str, res: Result, fi: FuncInfo, seq_txt: str, want_mark: 
         if not no_skip:
             res.fail(rule, finding(prop, rule, fi, c.node, f"resume scan case {txt}: with m elements already handled the scan can resume after position m: unhandled elements are skipped for good", construct=f"resume case {txt}"[:190]))
         elif exact and not no_redo:
-            res.fail(rule, finding(prop, rule, fi, c.node, f"resume scan case {txt}: the scan can resume before position m: an element that was already converted is converted again", construct=f"resume case {txt}"[:190]))
+            res.fail(rule, finding(prop, rule, fi, c.node, f"resume scan case {txt}: the scan can resume before position m: an element that was already {'converted' if want_mark == 'tag' else 'calculated'} is {'converted' if want_mark == 'tag' else 'calculated'} again{'' if want_mark == 'tag' else ' (a helper series is overwritten from whatever history trimming left)'}", construct=f"resume case {txt}"[:190]))
         else:
             res.ok(rule, {"site": fi.where, "case": txt, "proved": "result == m" if no_redo else "0 <= result <= m"}, nontrivial=f"{fi.qualname}:{txt}"[:120])
     if n_live == 0:
@@ -157,9 +159,15 @@ def check_calculate_driver(prop: str, res: Result, repo: Repo, want=("R-SKIP", "
                 # the path that calculates must be the one on which the present-test failed
                 tests = [item for item in p if isinstance(item, tuple) and item[0] == "if"]
                 aliases = {ast.unparse(x.targets[0]): ast.unparse(x.value) for x in p if isinstance(x, ast.Assign) and len(x.targets) == 1 and isinstance(x.targets[0], ast.Name)}
-                guard_ok = any(_present_polarity(item[1].test, lv, aliases) is (not item[2]) for item in tests)
+                pols = [(_present_polarity(item[1].test, lv, aliases), item[2]) for item in tests]
+                pols = [(p_, taken) for p_, taken in pols if p_ is not None]
+                guard_ok = any(p_ is (not taken) for p_, taken in pols)
                 if guard_ok:
                     res.ok("R-SKIP", {"site": f"{calc.where}", "why": "readings are written once: _calculate_reading runs only when indicators.get(name) is None"}, nontrivial="calculate:skip")
+                elif not pols:
+                    # no present-test on the calculating path: redundant as long as the sweep starts exactly after the newest candle that
+                    # holds an entry (R-SWEEP + R-RESUME, which demand that), because every swept candle is then without one
+                    res.ok("R-SKIP", {"site": f"{calc.where}", "why": "no skip test; the sweep starts exactly at the first candle without an entry (R-RESUME is exact), so nothing swept holds a reading"}, nontrivial="calculate:skip")
                 else:
                     res.fail("R-SKIP", finding(prop, "R-SKIP", calc, loop, "the sweep recalculates candles that already hold a reading (the skip test `indicators.get(name) is not None` is missing or altered)", construct="calculate: skip-if-present"))
     if n_calc == 0:
